@@ -68,13 +68,74 @@ def decl_leaves(spec):
     return [_leaf_decl(p, s) for p, s in by.items()]
 
 
+def synthetic_multi_agent_env():
+    """A tiny 3-agent environment whose per-agent rewards and discounts are arbitrary functions of the action, so that
+    the aggregation law of MultiToSingleWrapper is exercised on mixed vectors (negative rewards, some agents done)."""
+    from functools import cached_property
+    from typing import NamedTuple
+
+    import chex
+    import jax.numpy as jnp
+
+    from jumanji import specs
+    from jumanji.env import Environment
+    from jumanji.types import StepType, TimeStep
+
+    class Obs(NamedTuple):
+        t: chex.Array
+        last_action: chex.Array
+
+    @chex.dataclass
+    class St:
+        key: chex.PRNGKey
+        t: chex.Array
+
+    class SynthMA(Environment):
+        def __init__(self):
+            super().__init__()
+
+        @cached_property
+        def observation_spec(self):
+            return specs.Spec(Obs, "ObsSpec", t=specs.BoundedArray((), jnp.int32, 0, 100, "t"),
+                              last_action=specs.BoundedArray((3,), jnp.int32, 0, 4, "last_action"))
+
+        @cached_property
+        def action_spec(self):
+            return specs.MultiDiscreteArray(jnp.array([5, 5, 5], jnp.int32), name="action")
+
+        @cached_property
+        def reward_spec(self):
+            return specs.Array((3,), float, "reward")
+
+        @cached_property
+        def discount_spec(self):
+            return specs.BoundedArray((3,), float, 0.0, 1.0, "discount")
+
+        def reset(self, key):
+            st = St(key=key, t=jnp.array(0, jnp.int32))
+            ts = TimeStep(step_type=StepType.FIRST, reward=jnp.zeros((3,), float), discount=jnp.ones((3,), float),
+                          observation=Obs(t=st.t, last_action=jnp.zeros((3,), jnp.int32)), extras={"t": st.t})
+            return st, ts
+
+        def step(self, state, action):
+            t = state.t + 1
+            reward = (action.astype(float) - 2.0) * jnp.array([0.5, 1.25, -3.0])
+            discount = jnp.where(action % 2 == 0, 1.0, 0.0) * jnp.array([1.0, 0.5, 0.25])
+            last = t >= 6
+            ts = TimeStep(step_type=jnp.where(last, StepType.LAST, StepType.MID).astype(jnp.int8), reward=reward,
+                          discount=discount, observation=Obs(t=t, last_action=action.astype(jnp.int32)), extras={"t": t})
+            return St(key=state.key, t=t), ts
+
+    return SynthMA()
+
+
 def drive_env(name, tier, seed):
     import jax
     import jax.numpy as jnp
 
     from jumanji.wrappers import JumanjiToDMEnvWrapper, JumanjiToGymWrapper, MultiToSingleWrapper
 
-    base = catalog.catalog(tier)[name]()
+    base = synthetic_multi_agent_env() if name == "SyntheticMultiAgent" else catalog.catalog(tier)[name]()
     rng = np.random.default_rng(seed * 17 + 3)
     events = []
     multi = len(base.reward_spec.shape) > 0
@@ -82,7 +143,7 @@ def drive_env(name, tier, seed):
     if multi:
         aggs = [("sum", jnp.sum, "max", jnp.max), ("min", jnp.min, "mean", jnp.mean),
                 ("first", lambda x: x[0], "min", jnp.min)]
-        for ri, (rn, rf, dn, df) in enumerate(aggs if tier == "thorough" else aggs[:2]):
+        for ri, (rn, rf, dn, df) in enumerate(aggs if (tier == "thorough" or name == "SyntheticMultiAgent") else aggs[:2]):
             w = MultiToSingleWrapper(base, reward_aggregator=rf, discount_aggregator=df) if ri else MultiToSingleWrapper(base)
             key = jax.random.PRNGKey(seed + 11 + ri)
             ns, nts = jax.jit(base.reset)(key)
